@@ -18,7 +18,7 @@ fuzz_target!(|data: &[u8]| {
     while let Ok(t) = u.arbitrary::<u8>() {
         let op = match t % 16 {
             0 => BvmOp::Push(u.arbitrary().unwrap_or(false)),
-            1 => BvmOp::PushRun(u.arbitrary().unwrap_or(false), u.int_in_range(1..=600u16).unwrap_or(1)),
+            1 => BvmOp::PushRun(u.arbitrary().unwrap_or(false), u.int_in_range(1..=130u16).unwrap_or(1)),
             2 | 3 => BvmOp::AppendBits { bits: u.arbitrary().unwrap_or(0), len: u.int_in_range(0..=64u8).unwrap_or(0) },
             4 => BvmOp::ExtendWithZeros(u.int_in_range(0..=1500u16).unwrap_or(0)),
             5 | 6 => BvmOp::Set { frac: u.arbitrary().unwrap_or(0), bit: u.arbitrary().unwrap_or(false) },
@@ -27,12 +27,12 @@ fuzz_target!(|data: &[u8]| {
             10 => BvmOp::IntoImmutableAndBack,
             11 => BvmOp::RebuildFromIter,
             12 => BvmOp::ExtendLoose { bools: (0..u.int_in_range(0..=700usize).unwrap_or(0)).map(|_| u.arbitrary().unwrap_or(false)).collect(), mode: u.arbitrary().unwrap_or(0) },
-            13 => BvmOp::ExtendPattern { seed: u.arbitrary().unwrap_or(0), len: u.int_in_range(0..=5000u32).unwrap_or(0), sparse_lg: u.int_in_range(0..=8u8).unwrap_or(0), mode: u.arbitrary().unwrap_or(0) },
+            13 => BvmOp::ExtendPattern { seed: u.arbitrary().unwrap_or(0), len: u.int_in_range(0..=1200u32).unwrap_or(0), sparse_lg: u.int_in_range(0..=8u8).unwrap_or(0), mode: u.arbitrary().unwrap_or(0) },
             14 => BvmOp::RebuildFromLooseIter(u.arbitrary().unwrap_or(0)),
             _ => BvmOp::ViaLooseBitVector(u.arbitrary().unwrap_or(0)),
         };
         ops.push(op);
-        if ops.len() >= 300 {
+        if ops.len() >= 120 {
             break;
         }
     }
